@@ -94,6 +94,38 @@ void harness(void) {
     if (got) VP_WITNESS("accepted");
     __CPROVER_assert((got != 0) == (ref != 0), "isValidVertex <=> mode 4, valid owner cell, and cellToVertex(owner, number) reproduces the index");
 }
+#elif defined(GLUE_V2LL)
+// vertexToLatLng: the point returned for (owner, n) is the owner's n-th TOPOLOGICAL corner. The boundary generators are
+// replaced by a semantic stub: it emits the requested run of topological corners tagged (lat = corner number) and, as the
+// real code does at odd resolutions, may insert distortion points (tagged lat < 0) in front of any corner after the first.
+#include "faceijk.h"
+uint64_t in_x; int in_pent, in_err; int s_dist[12];
+int H3_EXPORT(isPentagon)(H3Index h) { return in_pent; }
+H3Error _h3ToFaceIjk(H3Index h, FaceIJK *f) { f->face = 0; f->coord.i = f->coord.j = f->coord.k = 0; return (H3Error)in_err; }
+static void emit(int nverts, int start, int length, CellBoundary *g) {
+    __CPROVER_assert(start >= 0 && start < nverts && length >= 1 && length <= nverts, "boundary generator called with a valid run of corners");
+    g->numVerts = 0;
+    int extra = (length == nverts) ? 1 : 0;   // closing iteration: may add a distortion point on the last edge
+    for (int v = start; v < start + length + extra; v++) {
+        if (v > start && s_dist[v % 12] && g->numVerts < MAX_CELL_BNDRY_VERTS) { g->verts[g->numVerts].lat = -1.0 - (v % nverts); g->verts[g->numVerts].lng = 0; g->numVerts++; }
+        if (v < start + length && g->numVerts < MAX_CELL_BNDRY_VERTS) { g->verts[g->numVerts].lat = (double)(v % nverts); g->verts[g->numVerts].lng = 1; g->numVerts++; }
+    }
+}
+void _faceIjkPentToCellBoundary(const FaceIJK *h, int res, int start, int length, CellBoundary *g) { __CPROVER_assert(in_pent, "pentagon generator for pentagon owners"); emit(5, start, length, g); }
+void _faceIjkToCellBoundary(const FaceIJK *h, int res, int start, int length, CellBoundary *g) { __CPROVER_assert(!in_pent, "hexagon generator for hexagon owners"); emit(6, start, length, g); }
+void harness(void) {
+    in_x = vp_u64("in_x"); in_pent = vp_int("in_pent") & 1; in_err = vp_int("in_err");
+    __CPROVER_assume(in_err >= 0 && in_err <= 15);
+    for (int i = 0; i < 12; i++) s_dist[i] = vp_int_i("s_dist", i) & 1;
+    int num = (int)((in_x >> 56) & 7);
+    __CPROVER_assume(num < (in_pent ? 5 : 6));   // vertex numbers of the owner (isValidVertex / cellToVertex guarantee this)
+    VP_EXCLUDE();
+    LatLng out = {99, 99};
+    H3Error e = H3_EXPORT(vertexToLatLng)(in_x, &out);
+    if (in_err) { __CPROVER_assert(e == (H3Error)in_err, "conversion error passed through"); return; }
+    VP_WITNESS("v2ll");
+    __CPROVER_assert(e == E_SUCCESS && out.lat == (double)num && out.lng == 1, "vertexToLatLng(owner, n) is the owner's n-th topological corner (never a distortion point, never another corner)");
+}
 #elif defined(GLUE_VERTEXES)
 uint64_t in_cell; int in_pent; uint64_t s_v[6]; int s_e[6];
 int H3_EXPORT(isPentagon)(H3Index h) { __CPROVER_assert(h == in_cell, "isPentagon on the cell"); return in_pent; }
